@@ -630,7 +630,7 @@ func statusTable(c *corr.Ctx) {
 
 // Run is the domain entry point.
 func Run(c *corr.Ctx) {
-	c.Rule("sequences of requests / responses / interleaved frames drawn from the WellFormed predicate (any dispatchable method, parse-stable URLs incl. IPv6 / queries / `*`, 0..255 header entries with multi-values and non-token keys, bodies 0..128 KiB, payloads 0..65535, channels 0..255) written by the real serialisers and read by the real conn.Conn under ≥ 5 partitions each (whole, 1-byte, random sizes, two-chunk splits; every offset for short streams); mutated / truncated-at-every-offset / hand-written / limit−1,limit,limit+1 streams; base64 block streams split inside quanta and paddings; conn over the base64 stream reader; a case is non-trivial when its stream is non-empty; distinct = distinct op-line sequences")
+	c.Rule("sequences of requests / responses / interleaved frames drawn from the WellFormed predicate (any dispatchable method, parse-stable URLs incl. IPv6 / queries / `*`, 0..255 header entries with multi-values and non-token keys, bodies 0..128 KiB, payloads 0..65535, channels 0..255) written by the real serialisers and read by the real conn.Conn under ≥ 5 partitions each (whole, 1-byte, random sizes, two-chunk splits; every offset for short streams); mutated / truncated-at-every-offset / hand-written / limit−1,limit,limit+1 streams; base64 block streams split inside quanta and paddings; conn over the base64 stream reader; requests and scripted responses through the real HTTP and WebSocket tunnels between the library's client tunnel / Client and a Server on loopback; a case is non-trivial when its stream is non-empty; distinct = distinct op-line sequences")
 	if c.Replay != nil {
 		var sc StreamCase
 		if err := json.Unmarshal(c.Replay, &sc); err != nil {
